@@ -1,5 +1,6 @@
-(* C08, forward simulation for HEAP statements, part 6b: Let and Create on RISC-V (objects and closure
-   environments of at most three fields: ONE block).  The counterpart of Proof/X86HSimHeapB.v.
+(* CHAIN VERSION of Proof/RVHSimHeapB.v.  C08, forward simulation for HEAP statements, part 6b: Let and Create on RISC-V,
+   objects and closure environments of ANY number of fields (chains of blocks); `hclo_ok` of a new closure is built from
+   Proof/RVKLayout.dispatch_layout_nz (landing conditional on an instruction in the clause code).  The counterpart of Proof/X86HSimHeapB.v.
    Let:    `r_store` of the arguments (hsim_store_any), then `LI` of the jump-table offset of the tag into the
            second register of the new position;
    Create: `r_store` of the captured variables, then `LA` of the label in front of the closure's code into
